@@ -330,6 +330,9 @@ func init() {
 			scn.Kind = [2]string{"real", "adv"}
 			scn.LiquidBackend[0] = pick(t, "backend", []string{"elementsd", "lwk"})
 			scn.RpcParkRate = pick(t, "park", []int{0, 200, 1000})
+			if rapid.IntRange(0, 3).Draw(t, "lndwatcher") == 0 {
+				scn.Adapter[0], scn.Flavor[0] = "lnd", "lnd" // bitcoin registrations go to the lnd adapter's watcher
+			}
 			scn.BlockEverySec = pick(t, "blockevery", []int{0, 5, 20})
 			scn.DurationSec = 400
 			n := rapid.IntRange(1, 4).Draw(t, "nwatch")
